@@ -14,13 +14,13 @@ import (
 )
 
 const (
-	whatRebuild  = "ctx.Rebuild() differs from a fresh api.Build of the current tree"
-	whatWatch    = "watch mode: an edit changes the fresh build result but no watch predicate reports a change"
-	whatTick     = "watch mode: predicates report a dirty path but the watcher's scan never returns it"
-	whatDisk     = "ctx.Rebuild() with write=true leaves an output directory that differs from the returned output files"
+	whatRebuild      = "ctx.Rebuild() differs from a fresh api.Build of the current tree"
+	whatWatch        = "watch mode: an edit changes the fresh build result but no watch predicate reports a change"
+	whatTick         = "watch mode: predicates report a dirty path but the watcher's scan never returns it"
+	whatDisk         = "ctx.Rebuild() with write=true leaves an output directory that differs from the returned output files"
 	whatSymlinkKnown = "known-G-watch-misses-symlink-retarget"
 	whatSpurious     = "watch mode: the watch data installed by the build that just finished reports a change on the unedited tree"
-	whatRepeat   = "a second ctx.Rebuild() without any edit differs from the fresh build"
+	whatRepeat       = "a second ctx.Rebuild() without any edit differs from the fresh build"
 )
 
 type canonMsg struct {
@@ -116,7 +116,7 @@ type glueFailure struct {
 
 type execStats struct {
 	steps, rebuildChecks, watchChecks, watchChanged, dirtySeen, diskChecks, errorBuilds, cures, flakes int
-	kinds                                                                                            map[string]int
+	kinds                                                                                              map[string]int
 }
 
 func readOutdir(outdir string) map[string]string {
@@ -346,6 +346,7 @@ func streamGlue(seed uint64, n int, tier string, tmp string) *Stats {
 		}
 	}
 	st.Extra["steps"] = es.steps
+	st.Extra["edit_script_ops_refused_by_os"] = opsRefused
 	st.Extra["rebuild_vs_fresh_checks"] = es.rebuildChecks
 	st.Extra["watch_checks"] = es.watchChecks
 	st.Extra["watch_checks_where_fresh_result_changed"] = es.watchChanged
@@ -368,7 +369,6 @@ func relTo(root string, ps []string) []string {
 	}
 	return out
 }
-
 
 func pureSymlinkRetarget(ops []op) bool {
 	if len(ops) != 2 {
